@@ -24,6 +24,11 @@ Why(ev) ==
   ELSE IF ev.op = "deliver" THEN
      (IF ev.wbox = ev.w THEN <<>> ELSE <<"wrong-inbox">>) \o (IF ev.post.box = AppendSet(ev.pre.box, ev.m) THEN <<>> ELSE <<"box">>)
   ELSE IF ev.op = "persist" THEN (IF ev.post.box = ev.pre.box /\ ev.post.count = Len(ev.pre.box) THEN <<>> ELSE <<"box-changed-in-storage">>)
+  ELSE IF ev.op = "update" THEN
+     (IF ev.post.box = ev.pre.box THEN <<>> ELSE <<"inbox-changed-by-update">>) \o (IF ev.post.idkept THEN <<>> ELSE <<"id-changed">>)
+     \o (IF ev.class = "plain"
+         THEN (IF ev.post.err = "" /\ ev.pre.ver = 1 /\ ev.post.ver = 2 THEN <<>> ELSE <<"not-updated">>)
+         ELSE (IF ev.post.err # "" /\ ev.post.ver = ev.pre.ver THEN <<>> ELSE <<"refused-merge-changed-the-copy">>))
   ELSE IF ev.op = "final" THEN
      LET s0 == ev.pre
          blocked == IF s0.class = "block" /\ ~IsNilE(s0.object) THEN {s0.object.w} ELSE {}
@@ -35,6 +40,6 @@ Why(ev) ==
      \o (IF \A i \in 1..Len(B) : NoRepeat(B[i].box) /\ SeqSet(B[i].box) = {1, 2} /\ B[i].count = 2 THEN <<>> ELSE <<"not-exactly-once">>)
   ELSE <<"unknown-step">>
 INSTANCE EventJudge
-TraceSpec == JInit /\ st = [class |-> "plain"] /\ ret = <<>> /\ phase = "judge" /\ st0 = <<>> /\ wire = None /\ boxes = <<>> /\ pending = {} /\ extra = 0
+TraceSpec == JInit /\ st = [class |-> "plain"] /\ ret = <<>> /\ phase = "judge" /\ st0 = <<>> /\ wire = None /\ boxes = <<>> /\ pending = {} /\ extra = 0 /\ ver = <<>>
              /\ [][(JStep \/ JFinish) /\ UNCHANGED dvars]_<<jvars, dvars>>
 =============================================================================
